@@ -21,7 +21,7 @@ import (
 	"verifharness/lib/obs"
 )
 
-type Str = []int          // a string as octets
+type Str = []int            // a string as octets
 type ATV [2]json.RawMessage // <<oid, value>>
 type AName [][]Str          // 15 fields (order of PkixName.tla FieldName)
 type ARDN [][][2]any        // projected RDN sequence: [[ [oid, value] ... ] ... ]
